@@ -108,6 +108,30 @@ def limit_scenario(rnd, sid):
     return s
 
 
+def psv_scenario(rnd, sid):
+    """a pressure-sustaining (or -reducing) valve between junctions of DIFFERENT elevation whose status changes during the run
+    (open while demand is low, active when the upstream pressure would fall below / the downstream pressure rise above its
+    setting): both engines must switch it alike and hold the setting at the right node"""
+    import c02
+    s = c02.base(sid, "default")
+    H = 3600
+    s["H"], s["Pat"], s["PatStart"], s["Rs"], s["all"] = H, H, 0, 360, False
+    s["patterns"] = {"dem": [0.2] * rnd.randint(1, 2) + [3.0] * rnd.randint(2, 3) + [0.2]}
+    s["Dur"] = H * (len(s["patterns"]["dem"]) - 1)
+    e1, e2 = rnd.choice([(10.0, 0.0), (0.0, 10.0), (7.5, 2.5)])
+    s["nodes"] = [{"name": "R0", "type": "R", "elev": 0.0, "head": 50.0, "pat": ""},
+                  {"name": "T0", "type": "T", "elev": 0.0, "minl": 0.0, "maxl": 20.0, "init": 5.0, "diam": 40.0, "vcurve": [],
+                   "leak": {"on": False, "area": 0.0, "cd": 0.75, "start": -1, "end": -1}},
+                  c02.junction("J1", e1, [{"base": netgen.rgrid(rnd, 0.035, 0.05, 0.005), "pat": "dem"}]), c02.junction("J2", e2, [])]
+
+    def pipe(name, a, b, L, d):
+        return {"name": name, "type": "pipe", "a": a, "b": b, "len": L, "diam": d, "rough": 100.0, "minor": 0.0, "cv": False, "init": 1}
+    s["links"] = [pipe("P1", "R0", "J1", 1000.0, 0.3),
+                  {"name": "V1", "type": "PSV", "a": "J1", "b": "J2", "diam": 0.3, "minor": 0.0, "setting": netgen.rgrid(rnd, 17.5, 25, 2.5), "init": 2},
+                  pipe("P2", "J2", "T0", 2000.0, 0.15)]
+    return s
+
+
 def times_with_units(inp, rnd):
     """rewrite the H:MM:SS values of [TIMES] as a number followed by a unit word; returns the path of the new file"""
     import re
@@ -183,7 +207,7 @@ def one(job):
     sid, seed, units = job
     w = common.import_wntr()
     rnd = random.Random(seed)
-    s = limit_scenario(rnd, sid) if sid % 6 == 5 else common_scenario(rnd, sid)
+    s = limit_scenario(rnd, sid) if sid % 6 == 5 else psv_scenario(rnd, sid) if sid % 6 == 3 else common_scenario(rnd, sid)
     names_n = [n["name"] for n in s["nodes"]]
     names_l = [l["name"] for l in s["links"]]
     out = {"seed": seed, "features": sorted(netgen.features_of(s)), "cases": [],
